@@ -188,6 +188,72 @@ func c15EditCheck(l *explore.Local, _ *c15Env, q c15Edit) *explore.Fail {
 	return nil
 }
 
+// c15Reg: the display keeps running; scene A is shown for a frame, then At cycles into the v-blank one video register
+// is rewritten (LCDC with bit 7 kept, a palette, a scroll or window register); the next two frames are compared with
+// the composition for the new register contents. Whatever the renderer carries over from the last pixel, line or
+// frame it drew (a pending object pixel, a window line, a cached palette) must not leak into the new frames.
+type c15Reg struct {
+	A   c15Scene `json:"a"`
+	Reg uint16   `json:"reg"`
+	Val uint8    `json:"val"`
+	At  int      `json:"at"`
+}
+
+func c15RegCheck(l *explore.Local, _ *c15Env, q c15Reg) *explore.Fail {
+	e := &c15Env{}
+	e.load(q.A.Set)
+	m := e.m
+	sc := c15Setup(e, q.A)
+	m.Map.Write(0xff40, sc.LCDC)
+	if !c15ToVBlank(m) {
+		return explore.Failf("harness: the PPU never reaches v-blank", "LCDC=%02x", sc.LCDC)
+	}
+	if f := c15Compare(e, &sc, q.A, "frame 1: "); f != nil {
+		return f
+	}
+	for i := 0; i < q.At; i++ {
+		m.P.EndMachineCycle()
+	}
+	if m.Map.Read(0xff41)&3 != 1 {
+		return explore.Failf("harness: not in v-blank where the register is rewritten", "STAT=%02x", m.Map.Read(0xff41))
+	}
+	sb := q.A
+	v := q.Val
+	switch q.Reg {
+	case 0xff40:
+		v |= 0x80
+		sc.LCDC, sb.LCDC = v, v
+	case 0xff42:
+		sc.SCY, sb.SCY = v, v
+	case 0xff43:
+		sc.SCX, sb.SCX = v, v
+	case 0xff4a:
+		sc.WY, sb.WY = v, v
+	case 0xff4b:
+		sc.WX, sb.WX = v, v
+	case 0xff47:
+		sc.BGP, sb.BGP = v, v
+	case 0xff48:
+		sc.OBP0, sb.OBP0 = v, v
+	case 0xff49:
+		sc.OBP1, sb.OBP1 = v, v
+	}
+	m.Map.Write(q.Reg, v)
+	for fr := 2; fr <= 3; fr++ {
+		if !c15ToVBlank(m) {
+			return explore.Failf("harness: the PPU never reaches v-blank", "LCDC=%02x", sc.LCDC)
+		}
+		if f := c15Compare(e, &sc, sb, fmt.Sprintf("frame %d, after %04x<-%02x was written %d cycles into the v-blank of frame 1 (LCDC was %02x): ", fr, q.Reg, v, q.At, q.A.LCDC|0x80)); f != nil {
+			return f
+		}
+		l.Trans(1)
+	}
+	l.Eval(1)
+	pix := m.P.Frame().Pix
+	l.Outcome(explore.HashBytes(pix[:160*4*8]) ^ explore.HashBytes(pix[160*4*136:160*4*144]))
+	return nil
+}
+
 // c15Seq: on a fresh emulator, scene A is displayed for OffAt machine cycles, the LCD is switched off
 // (wherever in the frame that is), scene B is set up and displayed; B's first and following frames are compared.
 type c15Seq struct {
@@ -257,7 +323,7 @@ func c15Classify(sc *ref.Scene, want *[144][160]uint8, x, y int, got uint8) stri
 func init() {
 	register("C15", "model_checking", func(c *Ctx) {
 		if c.R != nil {
-			c.R.Rule = "each scene (registers, VRAM, OAM written through the Mapper with the LCD off, then LCD on for one frame of real PPU cycles) is compared pixel by pixel (160x144 RGBA) with the reference DMG composition; the scene family is a union of complete products: background/window product (tile map x addressing x SCX x SCY x window position x window map x palettes), single-object product (X at every clipping amount on the left/right edges x Y at every clipping amount on the top/bottom edges x flips x palette x priority), object-pair product (dx, dy, priorities, transparency), ten objects on a line; one VRAM byte rewritten in v-blank between two frames of a running display; tile data is one of 3 fixed sets of 384 distinct patterns selected by VERIF_SEED"
+			c.R.Rule = "each scene (registers, VRAM, OAM written through the Mapper with the LCD off, then LCD on for one frame of real PPU cycles) is compared pixel by pixel (160x144 RGBA) with the reference DMG composition; the scene family is a union of complete products: background/window product (tile map x addressing x SCX x SCY x window position x window map x palettes), single-object product (X at every clipping amount on the left/right edges x Y at every clipping amount on the top/bottom edges x flips x palette x priority), object-pair product (dx, dy, priorities, transparency), ten objects on a line; one VRAM byte, or one video register, rewritten in v-blank between two frames of a running display; tile data is one of 3 fixed sets of 384 distinct patterns selected by VERIF_SEED"
 			c.R.Assumptions = []string{"preconditions of the statement: LCD and background enabled, 8x8 objects, at most 10 per line, OAM in X order, WX 7-166, constant scene", "quick tier uses a reduced scroll/window value set; every product that is enumerated is enumerated completely"}
 		}
 		set := ((c.Seed % 3) + 3) % 3
@@ -427,6 +493,41 @@ func init() {
 					}
 				}
 			}, func() *c15Env { return nil }, c15EditCheck)
+		// one register rewritten in v-blank between two frames of a running display
+		{
+			// objects with and without background priority on the very last pixels of the picture, the first pixels, and mid-screen
+			objsC := []c15Obj{{152, 160, 5, 0x80}, {152, 160, 6, 0x90}, {152, 160, 9, 0x80}, {16, 8, 10, 0x80}, {80, 84, 11, 0x80}, {80, 90, 12, 0x10}, {150, 100, 13, 0x00}}
+			regScenes := []c15Scene{
+				{LCDC: 0x13, BGP: 0xe4, OBP0: 0xe4, OBP1: 0x1b, Set: set, Objs: objsC},
+				{LCDC: 0x33, BGP: 0xe4, OBP0: 0x1b, OBP1: 0xe4, WX: 7, WY: 0, Set: set, Objs: objsC},
+				{LCDC: 0x73, BGP: 0x1b, OBP0: 0xe4, OBP1: 0x6c, WX: 87, WY: 70, SCX: 3, SCY: 201, Set: set, Objs: objsC},
+				{LCDC: 0x11, BGP: 0xe4, OBP0: 0xe4, OBP1: 0x1b, SCX: 9, SCY: 9, Set: set, Objs: objsC},
+			}
+			explore.Product(c.R, "register-rewrite-in-v-blank", explore.PartOpt{Bound: "one frame of scene A, one register written in v-blank, two frames compared; fresh emulator per case",
+				Domain: "4 scenes (objects with background priority on the last and first pixels of the picture) x {LCDC with each of bits 1, 3, 4, 5, 6 flipped, LCDC 91/81/E3 (background stays enabled, objects stay 8x8: the statement's scope); BGP, OBP0, OBP1 x 2 values; SCX, SCY, WX, WY x 2 values} x write 0, 5, 600 or 1139 cycles into the v-blank"},
+				func(yield func(c15Reg) bool) {
+					for _, a := range regScenes {
+						var ws [][2]uint16
+						for b := 0; b < 7; b++ {
+							if b == 0 || b == 2 {
+								continue // the statement covers scenes with the background enabled and 8x8 objects
+							}
+							ws = append(ws, [2]uint16{0xff40, uint16(a.LCDC ^ 1<<uint(b))})
+						}
+						ws = append(ws, [2]uint16{0xff40, 0x91}, [2]uint16{0xff40, 0x81}, [2]uint16{0xff40, 0xe3},
+							[2]uint16{0xff47, 0x1b}, [2]uint16{0xff47, 0x00}, [2]uint16{0xff48, 0x6c}, [2]uint16{0xff48, 0xff}, [2]uint16{0xff49, 0x6c}, [2]uint16{0xff49, 0x00},
+							[2]uint16{0xff42, 0x00}, [2]uint16{0xff42, 0x8f}, [2]uint16{0xff43, 0x00}, [2]uint16{0xff43, 0x8f},
+							[2]uint16{0xff4a, 0x00}, [2]uint16{0xff4a, 0x8f}, [2]uint16{0xff4b, 0x07}, [2]uint16{0xff4b, 0xa6})
+						for _, w := range ws {
+							for _, at := range []int{0, 5, 600, 1139} {
+								if !yield(c15Reg{A: a, Reg: w[0], Val: uint8(w[1]), At: at}) {
+									return
+								}
+							}
+						}
+					}
+				}, func() *c15Env { return nil }, c15RegCheck)
+		}
 		// scene after scene on one instance: the LCD is switched off at many points of scene A's frame
 		offs := []int{-1, 1, 19, 20, 61, 113, 114, 10*114 + 30, 72*114 + 5, 100*114 + 70, 143*114 + 113, 144 * 114, 150*114 + 7, 17555, 17556, 17556 + 114*80 + 3}
 		frames := 2
